@@ -55,3 +55,12 @@ claim("C01",
       "A-SK (DBSCAN = connected components, raises on empty input), A-NP; the heuristic periodic search (get_region) is under an assumed contract; crash-freedom of PeriodicFinder and the prototype-cell "
       "typestate are not covered; the main loop / _merge_clusters loop are covered only as far as listed in evidence.unproved_conjuncts.",
       "symbolic execution over a heap model with loop invariants + z3 (quantified arrays); native small-scope replay for refutations", "DESIGN.md §3 C01")
+
+claim("C09",
+      "get_dimensionality and geometry.get_clusters are executed symbolically from their real source (symbolic cell, pbc, atom count; all four parameter shapes) against the contracts of "
+      "get_radii, get_displacement_tensor (C10) and DBSCAN: None <=> more than one bonded component of the cell contents; 0 without periodic directions; otherwise n_pbc - log2(N_2x) "
+      "(CPython math.log evaluated on the whole finite domain); the caller establishes the callee precondition 'atoms inside the cell' (wrap of a copy), requests a cutoff that covers every "
+      "bonded pair (lemma), doubles exactly the periodic directions, tiles the radii in repeat order; clipping preserves the bond predicate (lemma); label loop invariant for the group count.",
+      "A-TSA (topology-scaling theorem) is mathematics and not machine-checked; the displacement-tensor contract is the subject of C10; DBSCAN/ASE/numpy contracts assumed; invariances follow from "
+      "'result = formula' and are not proved separately.",
+      "symbolic execution against callee contracts + z3; exhaustive evaluation of the finite formula domain", "DESIGN.md §3 C09")
